@@ -668,6 +668,22 @@ def _main(ctx, cd, root):
         ctx.notes.append(f'{rep.suppressed} further violations not written '
                          f'out (cap 40)')
     ctx.assumptions += [
+        'canonicalisation is also configured in the file (CanonicalizeHostname '
+        'yes/always/no, CanonicalDomains, CanonicalizeMaxDots, '
+        'CanonicalizeFallbackLocal) and then performed by connect() itself '
+        'with a resolver that knows <name>.c only; '
+        'CanonicalizePermittedCNAMEs is not modelled (the resolver returns '
+        'no CNAME)',
+        'what a Match line records while it is walked: "final" asks for the '
+        'final pass wherever it stands and whatever the other criteria say '
+        '(checked against ssh -G through the number of times a Match exec '
+        'command runs); a Match exec command runs only if the criteria '
+        'before it hold (ssh -G runs the same commands); Match localnetwork '
+        'is not generated (ifaddr is not installed)',
+        'relation to the known finding second_pass_restarts: whether a '
+        'second pass happens and with which canonical/final flags is the '
+        'same under the rule and under that departure, so a case is only '
+        'attributed to it when the restart itself explains the values',
         'canonicalisation: connect(canonicalize_hostname=True, '
         'canonical_domains=["c"]) with a resolver that knows every name; only '
         'programs without Hostname / originalhost / %n are used there (ssh '
